@@ -335,7 +335,11 @@ def r3(cx):
     wd = await_done(F, body, du, wt)
     cx.require(wd is not None, 'the wait call of the pipeline is not awaited')
     tests = Q.find_calls(body, ['yash_env::semantics::ExitStatus::is_successful'])
-    cx.require(tests, 'is_successful test of the waited status not found')
+    if not tests:
+        cx.violation(root, 'fold-ignores-success', 'the pipeline status is folded without testing whether a member FAILED (no '
+                     'ExitStatus::is_successful on the waited status): with pipefail the result must be the status of the RIGHTMOST failing '
+                     'member (POSIX.1-2024 2.9.2), not e.g. the greatest one - `exit 30 | exit 20 | exit 0` is 20', loc=body.loc(upd[0][2]))
+        return
     tt = tests[0][1]
     stop = {wb} | {b for b, t in Q.find_calls(body, [re.compile(r'Iterator>::next$')])} | set(body.return_blocks())
     table = {}
@@ -796,3 +800,146 @@ def r7(cx):
 
 # --- explanation addendum (generated catalogue in DESIGN.md reads RS.explanation)
 RS.explanation += ' Added later: the wait layers return only halted / terminated children (R8); command substitution drains the pipe before waiting (R9).'
+
+
+# ----------------------------------------------------------------- R10
+UPDATE_ALL = 'yash_env::Env::<S>::update_all_subshell_statuses'
+WAIT_ANY_JOB = 'yash_builtin::wait::core::wait_for_any_job_or_trap'
+# who may ask the system for the status of "any child" (the answer is recorded in the job list only: the status of a
+# child that is not a job is lost, as the documentation of update_all_subshell_statuses says)
+ANY_CHILD_REAPERS = {
+    UPDATE_ALL: 'the collector itself: wait(Pid::ALL) until nothing is left, each answer recorded in the job list',
+    WAIT_ANY_JOB: 'the wait built-in: runs as a command of its own, when the shell holds no unawaited non-job child',
+}
+# who may call a collector: between two commands (C13.R5), and the job-control built-ins
+COLLECTOR_CALLERS = {
+    '<yash_syntax::syntax::Command as yash_semantics::command::Command<S>>::execute': 'after a command has finished (C13.R5)',
+    'yash_semantics::runner::run_command': 'before a top-level command (C13.R5)',
+}
+COLLECTOR_CALLER_MODULES = re.compile(r'^yash_builtin::(wait|jobs)::')
+
+
+def _target_class(body, du, operand):
+    """'any' (Pid::ALL or a literal non-positive pid), 'param' (the caller's target, forwarded), 'value' (a pid computed here)."""
+    if (operand.get('cdef') or '').endswith('Pid::ALL'):
+        return 'any'
+    o = du.origin(operand)
+    for _ in range(4):
+        if o['k'] == 'const':
+            return 'any' if (o['o'].get('cdef') or '').endswith('Pid::ALL') else 'value'
+        if o['k'] == 'agg' and (o['rv'].get('adt') or '').endswith('job::Pid'):
+            c = (o['rv'].get('ops') or [{}])[0].get('c')
+            try:
+                return 'any' if c is not None and int(re.sub(r'_?i32$', '', str(c))) <= 0 else 'value'
+            except ValueError:
+                return 'value'
+        if o['k'] == 'arg':
+            return 'param'
+        if o['k'] == 'place' and o['pl']['l'] == 1 and body.d.get('coroutine') and len(o['pl'].get('p') or []) == 1:
+            return 'param'
+        if o['k'] == 'place' and Q.is_plain(o['pl']):
+            o2 = du.origin_place(o['pl'])
+            if o2 == o:
+                break
+            o = o2
+            continue
+        break
+    return 'value'
+
+
+def _any_child_sites(F, body):
+    """Call sites in `body` that collect the status of whichever child has one: wait(Pid::ALL), a collector,
+    or the wait_for_subshell family asked for any child."""
+    du = None
+    out = []
+    for b, t in body.calls():
+        if Q.callee_is(t, [UPDATE_ALL, WAIT_ANY_JOB]):
+            out.append((b, t, pp.callee(t).split('::')[-1]))
+        elif Q.callee_is(t, WAIT) or Q.callee_is(t, WAITERS):
+            du = du or Q.DefUse(body)
+            pid = [a for a, ty in zip(t['a'], t.get('at', [])) if ty == 'yash_env::job::Pid'] or t['a'][1:2]
+            if pid and _target_class(body, du, pid[0]) == 'any':
+                out.append((b, t, '%s(any child)' % pp.callee(t).split('::')[-1]))
+    return out
+
+
+@RS.rule('C13.R10', 'K-CALLERS', 'while the shell waits for ONE child it collects no other: wait(any child) / update_all_subshell_statuses are called '
+         'only between commands and by the job built-ins, never from the wait_for_subshell family or anything it calls (the status of a '
+         'sibling that is not a job - a pipeline member - would be consumed and thrown away, its own wait(pid) then fails with ECHILD)')
+def r10(cx):
+    F = cx.F
+    family = [fn for fn in F.fns if any(w.match(fn) for w in WAITERS)] if hasattr(F, 'fns') else []
+    cx.require(len(family) == 3, 'the wait_for_subshell / _to_halt / _to_finish family of Env not found (%s)' % sorted(family))
+    cx.require(UPDATE_ALL in F.bodies, 'Env::update_all_subshell_statuses not found')
+    # (1) what the family reaches through resolved calls (its own closures included)
+    parent = {}
+    todo = list(family)
+    seen = set(family)
+    while todo:
+        fn = todo.pop()
+        for body in F.logical(fn):
+            for b, t in body.calls():
+                callee = t['f'].get('def') or ''
+                root = F.bodies[callee].root if callee in F.bodies else None
+                if root is None or not root.startswith(('yash_', '<yash_')) or root in seen or _is_delegate(F.bodies[callee]):
+                    continue
+                if root in ANY_CHILD_REAPERS:
+                    continue            # the call of a collector is the site reported below, its inside is not another one
+                seen.add(root)
+                parent[root] = fn
+                todo.append(root)
+    cx.floor(len(seen), 6, 'functions reachable from the wait_for_subshell family')
+
+    def chain(fn):
+        out = [fn]
+        while out[-1] in parent:
+            out.append(parent[out[-1]])
+        return ' <- '.join(x.split('::')[-1] for x in out)
+    in_family = set()
+    for fn in sorted(seen):
+        for body in F.logical(fn):
+            sites = _any_child_sites(F, body)
+            for b, t, what in sites:
+                in_family.add((body.fn, b))
+                cx.site('%s (reached from the wait family: %s): %s at %s' % (body.fn, chain(fn), what, body.loc(t)))
+                cx.violation(fn, 'collects-any-child-while-waiting:%s' % what.split('(')[0], 'while the shell waits for one particular child (%s) it '
+                             'asks the system for the status of ANY child: a sibling that has already terminated and is not in the job list (a member '
+                             'of the same pipeline) is reaped here and its status dropped; the pipeline\'s later wait for that member returns ECHILD '
+                             '(panic "cannot receive exit status of child process") and $? depends on which member happens to exit first'
+                             % chain(fn), loc=body.loc(t))
+    for fn in family:
+        b = F.main_body(fn)
+        cx.fn(b.fn)
+        du = Q.DefUse(b)
+        tg = [(blk, t) for blk, t in b.calls() if Q.callee_is(t, WAIT) or Q.callee_is(t, WAITERS)]
+        cx.site('%s: waits through %s; reaches %d function(s), none collects any child: %s' % (
+            b.fn, ['%s(%s)' % (pp.callee(t).split('::')[-1], _target_class(b, du, ([a for a, ty in zip(t['a'], t.get('at', [])) if ty == 'yash_env::job::Pid'] or t['a'][1:2])[0]))
+                   for _, t in tg], len(seen), not in_family))
+        if not tg:
+            cx.violation(fn, 'family-does-not-wait', '%s no longer waits through wait() / the lower wait layer' % fn, loc=b.loc(b.d))
+        for blk, t in tg:
+            pid = [a for a, ty in zip(t['a'], t.get('at', [])) if ty == 'yash_env::job::Pid'] or t['a'][1:2]
+            if _target_class(b, du, pid[0]) != 'param':
+                cx.violation(fn, 'waits-other-target', '%s does not wait for the target its caller named' % fn, loc=b.loc(t))
+    # (2) inventory: every other place that collects any child is a reviewed one
+    n = 0
+    for body in F.bodies.values():
+        if _is_delegate(body) or not body.root.startswith(('yash_', '<yash_')):
+            continue
+        for b, t, what in _any_child_sites(F, body):
+            n += 1
+            if (body.fn, b) in in_family:
+                continue
+            direct = Q.callee_is(t, WAIT) or Q.callee_is(t, WAITERS)
+            ok = (body.root in ANY_CHILD_REAPERS) if direct else (body.root in COLLECTOR_CALLERS or COLLECTOR_CALLER_MODULES.match(body.root))
+            cx.site('%s: %s at %s (%s)' % (body.root, what, body.loc(t), 'reviewed' if ok else 'NOT reviewed'))
+            cx.fn(body.root)
+            if not ok:
+                cx.violation(body.root, 'unreviewed-any-child-collector:%s' % what.split('(')[0], 'a new place collects the status of whichever child '
+                             'has one (%s): unless the shell holds no unawaited non-job child there (between two commands; the wait / jobs built-ins), '
+                             'the status of a pipeline member or command substitution is lost and its wait(pid) fails with ECHILD' % what,
+                             loc=body.loc(t))
+    cx.floor(n, 4, 'sites that collect the status of any child')
+
+
+RS.explanation += ' While one child is awaited no other is collected: wait(any child) / update_all_subshell_statuses have reviewed callers only and are unreachable from the wait_for_subshell family (R10).'
